@@ -23,6 +23,7 @@
 //! request timeout") is a real-time **test** (`rt …` lines, short `request_timeout`).
 use jrpc_harness::client_faults::*;
 use jrpc_harness::client_mock::{MockErr, split_cases};
+use jrpc_harness::client_spell::{maybe_respell, near_miss};
 use jrpc_harness::common::*;
 use jsonrpsee_core::client::ReceivedMessage;
 use std::time::{Duration, Instant};
@@ -80,6 +81,9 @@ struct Orc {
 	send_shut: bool,
 	/// a receive-side fault or a lethal text has been injected: the read task may be gone
 	read_dead: bool,
+	/// the application dropped the client: nobody can observe is_connected / on_disconnect any more
+	client_dropped: bool,
+	ping_armed: bool,
 }
 
 fn restart_cause(s: &str) -> Option<&str> {
@@ -146,11 +150,20 @@ impl Orc {
 		if w[0] != "ct" {
 			return Ok(());
 		}
-		let is_front = matches!(w[1], "call" | "subscribe" | "batch" | "notify");
+		// `drop`/`unsub`/`regnotif` on something that does not exist: nothing happened
+		if matches!(obs.literal.as_deref(), Some("bad-op") | Some("#skip bad-op")) {
+			return Ok(());
+		}
+		let is_front = matches!(w[1], "call" | "subscribe" | "batch" | "notify" | "regnotif" | "ondisc");
 		let ticket = self.n_front;
 		if is_front {
 			self.n_front += 1;
-			self.unsent.push_back(ticket);
+			if !matches!(w[1], "regnotif" | "ondisc") {
+				self.unsent.push_back(ticket);
+			}
+		}
+		if w[1] == "dropclient" {
+			self.client_dropped = true;
 		}
 		// ids as written on the wire (the internal unsubscribe requests belong to no ticket)
 		for wt in &obs.wires {
@@ -167,7 +180,7 @@ impl Orc {
 		// a response bearing the id of a waiting call / subscribe, read by a live read task while the
 		// send task is not held: that future resolves now (with a value or an error) — or the client
 		// disconnects now; it may never stay pending on a healthy connection
-		let is_delivery = matches!((w[1], w.get(2).copied()), ("deliver", _) | ("fault", Some("garbage")));
+		let is_delivery = matches!((w[1], w.get(2).copied()), ("deliver", _) | ("deliverbytes", _) | ("fault", Some("garbage" | "garbageb")));
 		let answered_now: Option<usize> =
 			if is_delivery && !self.recv_shut && !self.send_shut && !self.read_dead && self.was_conn && !send_failed {
 				let text = String::from_utf8(unhex(w[w.len() - 1])).unwrap_or_default();
@@ -190,7 +203,8 @@ impl Orc {
 				self.recv_shut = false;
 				self.send_shut = false;
 			}
-			("fault", Some("recv_err" | "peer_close" | "garbage"), _) | ("deliverbytes", _, _) | ("deepdeliver", _, _) => self.read_dead = true,
+			("fault", Some("recv_err" | "peer_close" | "garbage" | "garbageb"), _) | ("deepdeliver", _, _) => self.read_dead = true,
+			("deliverbytes", Some(h), _) if String::from_utf8(unhex(h)).is_err() => self.read_dead = true,
 			_ => {}
 		}
 		match (w[1], w.get(2).copied()) {
@@ -203,14 +217,14 @@ impl Orc {
 				self.injected.push("transport(mock:peer closed)".into());
 				self.definite = true;
 			}
-			("fault", Some("garbage")) => {
+			("fault", Some("garbage" | "garbageb")) => {
 				self.delivered = true;
 				self.definite = true;
 			}
 			("deliver", _) | ("deliverbytes", _) | ("deepdeliver", _) => self.delivered = true,
 			_ => {}
 		}
-		if w[1] == "deliverbytes" || w[1] == "deepdeliver" {
+		if w[1] == "deepdeliver" || (w[1] == "deliverbytes" && String::from_utf8(unhex(w[2])).is_err()) {
 			self.definite = true;
 		}
 		if send_failed {
@@ -235,11 +249,28 @@ impl Orc {
 				return Err(format!("operation {k} resolved with RequestTimeout although the request timeout is one hour"));
 			}
 		}
+		// an operation that fails because the connection ended fails with RestartNeeded(cause): the internal
+		// `ServiceDisconnect`, a bare transport error or any other stand-in must never reach the caller
+		for (k, c) in &obs.comps {
+			if c.starts_with("E:other(") || c.starts_with("E:custom(") || c.starts_with("E:transport(") {
+				let what = c.strip_prefix("E:other(").and_then(|h| h.strip_suffix(')')).map(|h| String::from_utf8_lossy(&unhex(h)).to_string()).unwrap_or(c.clone());
+				return Err(format!("operation {k} resolved with `{what}` instead of RestartNeeded(cause): the disconnect cause did not reach the caller"));
+			}
+		}
 		if obs.disc == "E:placeholder" {
 			return Err("on_disconnect() returned the placeholder error (\"Error reason could not be found\")".into());
 		}
+		if let ("fault", Some("ping_err")) = (w[1], w.get(2).copied()) {
+			self.injected.push(format!("transport(mock:p{})", w[3]));
+			self.ping_armed = true;
+		}
+		if w[1] == "advance" && self.ping_armed {
+			self.definite = true;
+		}
 		// is_connected / on_disconnect agree, and the cause is there
-		if obs.conn {
+		if self.client_dropped {
+			// only the background tasks are left: they must wind down (checked at `end`)
+		} else if obs.conn {
 			if obs.disc != "pending" {
 				return Err(format!("is_connected() is true but on_disconnect() resolved with {}", obs.disc));
 			}
@@ -281,8 +312,21 @@ impl Orc {
 				None => return Err(format!("operation {ticket} started after the disconnect is still pending")),
 			}
 		}
+		if w[1] == "end" && self.client_dropped {
+			for (k, ended, _) in &obs.streams {
+				if !ended {
+					return Err(format!("the client was dropped but the subscription stream of operation {k} has not ended"));
+				}
+			}
+			if !obs.tclosed {
+				return Err("the client was dropped but the transport sender was never closed".into());
+			}
+		}
 		if w[1] == "end" {
 			self.ended = true;
+			if !obs.conn && !obs.watching.is_empty() {
+				return Err(format!("disconnected but the on_disconnect() futures {:?} have not resolved", obs.watching));
+			}
 			if self.definite && obs.conn {
 				return Err("a fault was injected but the client still reports is_connected() at the end".into());
 			}
@@ -292,7 +336,7 @@ impl Orc {
 						return Err(format!("disconnected, every task released, but operations {u:?} are still pending"));
 					}
 				}
-				for (k, ended) in &obs.streams {
+				for (k, ended, _) in &obs.streams {
 					if !ended {
 						return Err(format!("disconnected but the subscription stream of operation {k} has not ended"));
 					}
@@ -309,19 +353,17 @@ impl Orc {
 
 fn run_one(out: &mut Out, lines: &[String]) {
 	let mut orc = Orc { was_conn: true, ..Default::default() };
+	if lines[0].contains("ping=") {
+		orc.injected.push("transport(WebSocket ping/pong inactive)".into());
+	}
 	let mut recs: Vec<(String, String, Result<(), String>, bool)> = vec![];
+	// `ctasksx` = same header, but outside the correspondence from the first line (oracle only)
 	let skip_all = lines[0].contains(" ctasksx ");
-	let (hdr, fcap) = if skip_all {
-		// `case <n> ctasksx <num|str> <cap> <fcap>`: small front channel, outside the correspondence
-		let w: Vec<&str> = lines[0].split(' ').collect();
-		(format!("case {} ctasks {} {}", w[1], w[3], w[4]), w.get(5).and_then(|f| f.parse().ok()).unwrap_or(1))
-	} else {
-		(lines[0].clone(), FCAP)
-	};
+	let hdr = lines[0].replacen(" ctasksx ", " ctasks ", 1);
 	let mut ctl_send_failed = false;
 	let mut script = lines.to_vec();
 	script[0] = hdr;
-	let late = run_ct_case_with(&script, fcap, skip_all, |line, obs, send_failed, max_alloc| {
+	let late = run_ct_case_with(&script, skip_all, |line, obs, send_failed, max_alloc| {
 		ctl_send_failed = send_failed;
 		let verdict = if obs.literal.as_deref() == Some("case") || obs.literal.as_deref() == Some("bad-op") {
 			Ok(())
@@ -367,9 +409,9 @@ fn run_one(out: &mut Out, lines: &[String]) {
 }
 
 /// like `client_faults::run_ct_case`, with the front-channel capacity as a parameter
-fn run_ct_case_with(lines: &[String], fcap: usize, skip_all: bool, mut on_line: impl FnMut(&str, &FObs, bool, usize)) -> Vec<String> {
+fn run_ct_case_with(lines: &[String], skip_all: bool, mut on_line: impl FnMut(&str, &FObs, bool, usize)) -> Vec<String> {
 	install_panic_hook();
-	let Some((str_ids, cap)) = parse_ct_header(&lines[0]) else {
+	let Some((str_ids, cap, fcap, opts)) = parse_ct_header_opts(&lines[0]) else {
 		for l in lines {
 			on_line(l, &FObs { literal: Some("bad-op".into()), ..Default::default() }, false, 0);
 		}
@@ -377,7 +419,7 @@ fn run_ct_case_with(lines: &[String], fcap: usize, skip_all: bool, mut on_line: 
 	};
 	let rt = tokio::runtime::Builder::new_current_thread().enable_time().start_paused(true).build().unwrap();
 	rt.block_on(async {
-		let mut s = FaultSession::new(str_ids, cap, fcap, Duration::from_secs(3600));
+		let mut s = FaultSession::with_opts(str_ids, cap, fcap, opts);
 		s.unmodelled = skip_all;
 		on_line(&lines[0], &FObs { literal: Some("case".into()), ..Default::default() }, false, 0);
 		for l in &lines[1..] {
@@ -402,6 +444,10 @@ enum Front {
 	Subscribe,
 	Batch(u64),
 	Notify,
+	/// `subscribe_to_method`
+	Reg,
+	/// the application awaits `on_disconnect()`
+	Watch,
 }
 
 #[derive(Clone, Debug)]
@@ -424,6 +470,15 @@ enum Item {
 	/// the unsubscribe request of a subscription that was let go is answered with an odd result / an
 	/// error object: nobody waits for it, nothing happens, the connection stays up
 	OddUnsubAnswer,
+	/// a `Pong` frame (ignored), the transport's `close()` will fail (ignored)
+	Pong,
+	CloseErr,
+	/// a notification for a method registered with `subscribe_to_method` (or for nobody)
+	NotifForReg,
+	/// a lethal text delivered as a *binary* frame: empty, whitespace only, or any garbage
+	GarbageBytes(Option<u64>),
+	/// a second fault of another kind after the first one: must not change the recorded cause
+	SecondFault(u64),
 	/// a long message (shape, exact byte length, filler kind, phase): not a JSON-RPC message (lethal) …
 	LongGarbage(u64, usize, u64, u64),
 	/// … or long but well-formed (a waiting call is answered with a long result / error, or a long
@@ -597,6 +652,13 @@ const LONG_CENTERS: [usize; 7] = [256, 512, 1024, 2048, 4096, 8192, 65536];
 
 /// texts after which the client must abandon the connection; `never` is an id no operation will ever get
 fn garbage_text(rng: &mut Rng, out: &mut Out, str_ids: bool, never: u64) -> String {
+	if rng.chance(1, 3) {
+		// the near misses of client_spell: texts that look like a reply but are no legal message
+		let nid = idj(rng.below(4), str_ids);
+		let (class, text) = near_miss(rng, &nid);
+		out.count(&format!("garbage.{class}"));
+		return text;
+	}
 	let k = rng.below(34 + LONG_U + 1);
 	out.count(&format!("garbage.kind{k:02}"));
 	if k >= 34 {
@@ -727,8 +789,48 @@ fn mutate(rng: &mut Rng, s: &str) -> String {
 }
 
 /// turn an abstract script into op lines (ids are allocated while walking, so inserted operations shift later ones)
-fn render(rng: &mut Rng, out: &mut Out, caseno: u64, str_ids: bool, cap: u64, script: &[Item]) -> Vec<String> {
-	let mut lines = vec![format!("case {caseno} ctasks {} {cap}", if str_ids { "str" } else { "num" })];
+/// modelled client configuration of a history: (id kind, buffer capacity, options word)
+fn pick_config(rng: &mut Rng, out: &mut Out) -> (bool, u64, String) {
+	let str_ids = rng.chance(1, 4);
+	out.count(if str_ids { "config.ids.string" } else { "config.ids.number" });
+	let cap = *rng.pick(&[1u64, 1, 2, 2, 3, 64]);
+	out.count(&format!("config.buffer_capacity.{}", if cap > 3 { "many".to_string() } else { cap.to_string() }));
+	let t = *rng.pick(&[0u64, 0, 60, 1_000_000_000]);
+	out.count(&format!("config.request_timeout.{}", match t { 0 => "hour", 60 => "minute", _ => "1e9s" }));
+	let ping = rng.chance(1, 4);
+	out.count(if ping { "config.ping.on_idle" } else { "config.ping.off" });
+	let mut o = vec![];
+	if t != 0 {
+		o.push(format!("t={t}"));
+	}
+	if ping {
+		o.push("ping=30000/40000/1".to_string());
+	}
+	(str_ids, cap, if o.is_empty() { String::new() } else { format!(" {}", o.join(",")) })
+}
+
+/// how many ids a batch of `n` entries takes from the allocator (1 on trees where `batch_request`
+/// takes a single id although it uses `[id, id+n)`, `n` where it reserves the whole range): probed on
+/// the real client once, so that the generated answers carry the ids the client will really use
+fn batch_id_step(n: u64) -> u64 {
+	static WHOLE_RANGE: std::sync::OnceLock<bool> = std::sync::OnceLock::new();
+	let whole = *WHOLE_RANGE.get_or_init(|| {
+		let rt = tokio::runtime::Builder::new_current_thread().enable_time().start_paused(true).build().unwrap();
+		rt.block_on(async {
+			let mut s = FaultSession::new(false, 1, FCAP, Duration::from_secs(3600));
+			s.exec("ct batch 3").await;
+			let o = s.exec("ct call").await;
+			o.wires.first().and_then(|w| serde_json::from_str::<serde_json::Value>(w).ok()).and_then(|v| v.get("id").and_then(|i| i.as_u64())) == Some(3)
+		})
+	});
+	if whole { n } else { 1 }
+}
+
+fn render_with(rng: &mut Rng, out: &mut Out, caseno: u64, str_ids: bool, cap: u64, opts: &str, script: &[Item]) -> Vec<String> {
+	let mut lines = vec![format!("case {caseno} ctasks {} {cap}{opts}", if str_ids { "str" } else { "num" })];
+	// methods registered with `subscribe_to_method`
+	let mut regs: Vec<String> = vec![];
+	let mut first_fault: Option<&'static str> = None;
 	let mut next_id = 0u64;
 	let mut open: Vec<Open> = vec![];
 	let mut subs: Vec<String> = vec![];
@@ -755,13 +857,68 @@ fn render(rng: &mut Rng, out: &mut Out, caseno: u64, str_ids: bool, cap: u64, sc
 			Item::Front(Front::Batch(n)) => {
 				lines.push(format!("ct batch {n}"));
 				open.push(Open::Batch { start: next_id, n: *n });
-				next_id += 1;
+				next_id += batch_id_step(*n);
 				ticket += 1;
 			}
 			Item::Front(Front::Notify) => {
 				lines.push("ct notify".into());
 				next_id += 1;
 				ticket += 1;
+			}
+			Item::Front(Front::Reg) => {
+				// sometimes a method that is registered already (answered `AlreadyRegistered`)
+				let m = if !regs.is_empty() && rng.chance(1, 4) { rng.pick(&regs).clone() } else { format!("evt{}", regs.len()) };
+				out.count("api.subscribe_to_method");
+				lines.push(format!("ct regnotif {}", hexs(&m)));
+				if !regs.contains(&m) {
+					regs.push(m);
+				}
+				ticket += 1;
+			}
+			Item::Front(Front::Watch) => {
+				out.count("api.on_disconnect_awaited");
+				lines.push("ct ondisc".into());
+				ticket += 1;
+			}
+			Item::Pong => {
+				out.count("server.pong");
+				lines.push("ct pong".into());
+			}
+			Item::CloseErr => {
+				out.count("fault.close_err");
+				lines.push("ct fault close_err".into());
+			}
+			Item::NotifForReg => {
+				let m = if regs.is_empty() || rng.chance(1, 5) { "nobody".to_string() } else { rng.pick(&regs).clone() };
+				out.count("server.notification_for_handler");
+				let p = *rng.pick(&["", ",\"params\":[1]", ",\"params\":{\"k\":null}", ",\"params\":null"]);
+				lines.push(format!("ct deliver {}", hexs(&format!("{{\"jsonrpc\":\"2.0\",\"method\":\"{m}\"{p}}}"))));
+			}
+			Item::GarbageBytes(fixed) => {
+				let t = match fixed.unwrap_or_else(|| rng.below(6)) {
+					0 => String::new(),
+					1 => " ".into(),
+					2 => "\n\t \r".into(),
+					3 => "\u{c}".into(),
+					_ => garbage_text(rng, out, str_ids, next_id + 1000),
+				};
+				out.count(if t.trim().is_empty() { "garbage.binary_frame.empty_or_blank" } else { "garbage.binary_frame.other" });
+				lines.push(format!("ct fault garbageb {}", hexs(&t)));
+			}
+			Item::SecondFault(k) => {
+				fault_no += 1;
+				let kinds = ["send_err", "recv_err", "peer_close", "garbage"];
+				let mut k = (*k % 4) as usize;
+				if Some(kinds[k]) == first_fault {
+					k = (k + 1) % 4;
+				}
+				out.count(&format!("second_fault.{}", kinds[k]));
+				lines.push(match k {
+					0 => format!("ct fault send_err {fault_no}"),
+					1 => format!("ct fault recv_err {fault_no}"),
+					2 => "ct fault peer_close".into(),
+					_ => format!("ct fault garbage {}", hexs("second")),
+				});
 			}
 			Item::Answer(oldest) => {
 				if open.is_empty() {
@@ -770,7 +927,14 @@ fn render(rng: &mut Rng, out: &mut Out, caseno: u64, str_ids: bool, cap: u64, sc
 					let i = if *oldest { 0 } else { rng.below(open.len() as u64) as usize };
 					let o = open.remove(i);
 					let before = subs.len();
-					lines.push(format!("ct deliver {}", hexs(&answer_text(rng, &o, str_ids, &mut subs))));
+					let text = answer_text(rng, &o, str_ids, &mut subs);
+					let text = maybe_respell(rng, &text, |c| out.count(&format!("spelling.{c}")));
+					if rng.chance(1, 8) {
+						out.count("server.answer_as_binary_frame");
+						lines.push(format!("ct deliverbytes {}", hexs(&text)));
+					} else {
+						lines.push(format!("ct deliver {}", hexs(&text)));
+					}
 					if let Open::Sub { ticket: t, .. } = o {
 						if subs.len() > before {
 							streams.push((t, subs[before].clone()));
@@ -875,15 +1039,21 @@ fn render(rng: &mut Rng, out: &mut Out, caseno: u64, str_ids: bool, cap: u64, sc
 			}
 			Item::Gate(g, open_) => lines.push(format!("ct gate {g} {}", if *open_ { "open" } else { "shut" })),
 			Item::FaultSend => {
+				first_fault.get_or_insert("send_err");
 				fault_no += 1;
 				lines.push(format!("ct fault send_err {fault_no}"));
 			}
 			Item::FaultRecv => {
+				first_fault.get_or_insert("recv_err");
 				fault_no += 1;
 				lines.push(format!("ct fault recv_err {fault_no}"));
 			}
-			Item::FaultPeer => lines.push("ct fault peer_close".into()),
+			Item::FaultPeer => {
+				first_fault.get_or_insert("peer_close");
+				lines.push("ct fault peer_close".into())
+			}
 			Item::Garbage => {
+				first_fault.get_or_insert("garbage");
 				let t = garbage_text(rng, out, str_ids, next_id + 1000);
 				lines.push(format!("ct fault garbage {}", hexs(&t)));
 			}
@@ -896,7 +1066,7 @@ fn render(rng: &mut Rng, out: &mut Out, caseno: u64, str_ids: bool, cap: u64, sc
 
 /// does the send task write something to the transport for this item (if the script's belief holds)?
 fn writes(it: &Item) -> bool {
-	matches!(it, Item::Front(_) | Item::DropSub | Item::UnsubSub | Item::Flood | Item::OddSubAnswer(_))
+	matches!(it, Item::Front(Front::Call | Front::Subscribe | Front::Batch(_) | Front::Notify) | Item::DropSub | Item::UnsubSub | Item::Flood | Item::OddSubAnswer(_))
 }
 
 fn gen_base(rng: &mut Rng) -> Vec<Item> {
@@ -955,7 +1125,14 @@ fn gen_base(rng: &mut Rng) -> Vec<Item> {
 			6 => Item::Front(Front::Notify),
 			7 | 8 => Item::Answer(rng.chance(1, 2)),
 			9 => Item::Noise,
-			_ => Item::Answer(true),
+			_ => match rng.below(8) {
+				0 => Item::Front(Front::Reg),
+				1 => Item::Front(Front::Watch),
+				2 => Item::Pong,
+				3 => Item::CloseErr,
+				4 => Item::NotifForReg,
+				_ => Item::Answer(true),
+			},
 		});
 	}
 	v
@@ -974,10 +1151,12 @@ const PLACES: [[bool; 4]; 6] = [
 ];
 
 fn extra_front(rng: &mut Rng) -> Item {
-	Item::Front(match rng.below(8) {
+	Item::Front(match rng.below(12) {
 		0 => Front::Subscribe,
 		1 => Front::Batch(2),
 		2 => Front::Notify,
+		3 | 4 => Front::Reg,
+		5 | 6 => Front::Watch,
 		_ => Front::Call,
 	})
 }
@@ -1003,7 +1182,16 @@ fn systematic(rng: &mut Rng, out: &mut Out, base: &[Item], p: usize, fault: &str
 	if fault == "send_err" && !base[p..].iter().any(writes) {
 		// the switch fires on the next transport send (a call, a subscribe, a batch, a notification or an
 		// unsubscribe request): make sure there is one
-		s.push(Item::Front(Front::Call));
+		let (name, f) = match rng.below(4) {
+			0 => ("notification", Front::Notify),
+			1 => ("batch", Front::Batch(rng.range(1, 3))),
+			2 => ("subscribe", Front::Subscribe),
+			_ => ("call", Front::Call),
+		};
+		out.count(&format!("send_err_on.{name}"));
+		s.push(Item::Front(f));
+	} else if fault == "send_err" {
+		out.count("send_err_on.next_write_of_history");
 	}
 	s.extend_from_slice(&base[p..]);
 	if place[1] {
@@ -1019,6 +1207,19 @@ fn systematic(rng: &mut Rng, out: &mut Out, base: &[Item], p: usize, fault: &str
 	s.push(Item::End);
 	if place[3] {
 		s.push(extra_front(rng));
+	}
+	if place[0] && place[3] {
+		// after the end: every API once more, a second fault of another kind, and everything again
+		out.count("after_end.every_api_twice_with_second_fault");
+		for f in [Front::Call, Front::Notify, Front::Batch(2), Front::Subscribe, Front::Reg, Front::Watch] {
+			s.push(Item::Front(f));
+		}
+		s.push(Item::SecondFault(rng.below(4)));
+		s.push(Item::Answer(true));
+		for f in [Front::Watch, Front::Reg, Front::Subscribe, Front::Batch(1), Front::Notify, Front::Call] {
+			s.push(Item::Front(f));
+		}
+		s.push(Item::End);
 	}
 	s.push(Item::Probe);
 	s
@@ -1037,6 +1238,18 @@ fn random_history(rng: &mut Rng, out: &mut Out) -> Vec<Item> {
 			8..=10 => Item::Answer(rng.chance(1, 2)),
 			11 => Item::Noise,
 			12 => Item::Mutated,
+			13 if rng.chance(1, 3) => match rng.below(7) {
+				0 => Item::Front(Front::Reg),
+				1 => Item::Front(Front::Watch),
+				2 => Item::Pong,
+				3 => Item::CloseErr,
+				4 => Item::NotifForReg,
+				5 => {
+					out.count("fault.garbage");
+					Item::GarbageBytes(None)
+				}
+				_ => Item::SecondFault(rng.below(4)),
+			},
 			13 => match rng.below(7) {
 				5 => Item::LongValid(rng.below(LONG_V), (LONG_CENTERS[rng.below(6) as usize] as i64 + rng.range(0, 6) as i64 - 3) as usize, rng.below(4), rng.below(4)),
 				6 => Item::LongGarbage(rng.below(LONG_U), (LONG_CENTERS[rng.below(6) as usize] as i64 + rng.range(0, 6) as i64 - 3) as usize, rng.below(4), rng.below(4)),
@@ -1255,11 +1468,108 @@ fn long_message_histories(big: bool) -> Vec<Vec<Item>> {
 	all
 }
 
+/// every way to end × the things that can be around it, once per run whatever the seed: a handler of
+/// `subscribe_to_method` with buffered notifications, an accepted subscription with buffered items, a
+/// `Pong`, a transport whose `close()` will fail, `on_disconnect()` awaited before / during / after,
+/// a call and a batch pending; the fault is each of the four kinds, or an empty / blank binary frame;
+/// afterwards every API once more
+fn axis_histories() -> Vec<Vec<Item>> {
+	let mut all = vec![];
+	for fault in 0..8u64 {
+		for gate in [None, Some("send"), Some("close"), Some("recv")] {
+			let mut s = vec![
+				Item::Front(Front::Watch),
+				Item::Front(Front::Reg),
+				Item::Front(Front::Subscribe),
+				Item::Answer(true),
+				Item::NotifForReg,
+				Item::NotifForReg,
+				Item::Flood,
+				Item::Pong,
+				Item::CloseErr,
+				Item::Front(Front::Call),
+				Item::Front(Front::Batch(2)),
+				Item::Front(Front::Notify),
+			];
+			if let Some(g) = gate {
+				s.push(Item::Gate(g, false));
+			}
+			s.push(match fault {
+				0 => Item::FaultSend,
+				1 => Item::FaultRecv,
+				2 => Item::FaultPeer,
+				3 => Item::Garbage,
+				k => Item::GarbageBytes(Some(k - 4)),
+			});
+			if fault == 0 {
+				s.push(Item::Front(if gate.is_some() { Front::Notify } else { Front::Batch(2) }));
+			}
+			s.push(Item::Front(Front::Watch));
+			s.push(Item::Front(Front::Reg));
+			if let Some(g) = gate {
+				s.push(Item::Gate(g, true));
+			}
+			s.push(Item::End);
+			for f in [Front::Call, Front::Notify, Front::Batch(2), Front::Subscribe, Front::Reg, Front::Watch, Front::Watch] {
+				s.push(Item::Front(f));
+			}
+			s.push(Item::SecondFault(fault));
+			s.push(Item::Front(Front::Call));
+			s.push(Item::Probe);
+			all.push(s);
+		}
+	}
+	all
+}
+
+/// every front-end entry point QUEUED behind a send that is blocked in the transport when the fault
+/// hits: the blocker (call / notification / batch / subscribe) sits in `sender.send` behind the shut
+/// gate, the entry point (request, notification, batch, subscribe, subscribe_to_method, on_disconnect,
+/// drop of a stream, unsubscribe) is issued behind it, then the blocked send fails — or succeeds after
+/// the read side has failed.  Everything queued must fail with the recorded cause.
+fn queued_behind_blocked_send() -> Vec<Vec<Item>> {
+	let mut all = vec![];
+	for fault in 0..4u64 {
+		for blocker in [Front::Call, Front::Notify, Front::Batch(2), Front::Subscribe] {
+			for entry in 0..8u64 {
+				let mut s = vec![Item::Front(Front::Subscribe), Item::Answer(true), Item::Gate("send", false)];
+				if fault == 0 {
+					s.push(Item::FaultSend);
+				}
+				s.push(Item::Front(blocker.clone()));
+				s.push(match entry {
+					0 => Item::Front(Front::Call),
+					1 => Item::Front(Front::Notify),
+					2 => Item::Front(Front::Batch(2)),
+					3 => Item::Front(Front::Subscribe),
+					4 => Item::Front(Front::Reg),
+					5 => Item::Front(Front::Watch),
+					6 => Item::DropSub,
+					_ => Item::UnsubSub,
+				});
+				match fault {
+					0 => {}
+					1 => s.push(Item::FaultRecv),
+					2 => s.push(Item::FaultPeer),
+					_ => s.push(Item::Garbage),
+				}
+				s.push(Item::Front(Front::Reg));
+				s.push(Item::Gate("send", true));
+				s.push(Item::End);
+				s.push(Item::Front(Front::Reg));
+				s.push(Item::Probe);
+				all.push(s);
+			}
+		}
+	}
+	all
+}
+
 /// histories outside the text model (invalid UTF-8, nesting beyond serde_json's recursion limit) or
 /// with a tiny front channel (callers block on it): oracle only
-fn unmodelled_history(rng: &mut Rng, out: &mut Out, caseno: u64) -> Vec<String> {
+fn unmodelled_history(rng: &mut Rng, out: &mut Out, caseno: u64, kind: Option<u64>) -> Vec<String> {
 	let mut l = vec![];
-	match rng.below(3) {
+	match kind.unwrap_or_else(|| rng.below(5)) {
 		0 => {
 			out.count("server.invalid_utf8");
 			l.push(format!("case {caseno} ctasks num 2"));
@@ -1279,24 +1589,65 @@ fn unmodelled_history(rng: &mut Rng, out: &mut Out, caseno: u64) -> Vec<String> 
 			l.push("ct call".into());
 			l.push("ct end".into());
 		}
-		_ => {
-			out.count("front_channel.capacity1");
-			l.push(format!("case {caseno} ctasksx num 2 1"));
-			let g = *rng.pick(&["send", "close"]);
+		2 => {
+			// a fault while callers are blocked on the full front-end queue
+			let fcap = *rng.pick(&[1u64, 1, 2]);
+			out.count(&format!("config.front_channel.{fcap}"));
+			out.count("fault_while_front_queue_full");
+			l.push(format!("case {caseno} ctasksx {} {} fcap={fcap}", if rng.chance(1, 4) { "str" } else { "num" }, rng.range(1, 3)));
+			let g = *rng.pick(&["send", "close", "send"]);
 			l.push(format!("ct gate {g} shut"));
-			for _ in 0..rng.range(2, 4) {
-				l.push("ct call".into());
+			for _ in 0..rng.range(2, 5) {
+				l.push((*rng.pick(&["ct call", "ct call", "ct notify", "ct batch 2", "ct subscribe", "ct regnotif 65", "ct ondisc"])).into());
 			}
-			match rng.below(3) {
+			match rng.below(4) {
 				0 => l.push("ct fault send_err 1".into()),
 				1 => l.push("ct fault recv_err 1".into()),
+				2 => l.push("ct fault peer_close".into()),
 				_ => l.push(format!("ct fault garbage {}", hexs("nope"))),
 			}
 			l.push("ct call".into());
 			l.push(format!("ct gate {g} open"));
 			l.push("ct call".into());
 			l.push("ct end".into());
+			for v in ["ct call", "ct notify", "ct batch 1", "ct subscribe", "ct regnotif 66", "ct ondisc"] {
+				l.push(v.into());
+			}
+		}
+		3 => {
+			// the write of a WebSocket ping fails (paused clock: `advance` lets the ping timer fire)
+			out.count("fault.ping_send_err");
+			out.count("config.ping.on_20ms");
+			l.push(format!("case {caseno} ctasksx num 2 ping=20/1000000/3"));
+			for _ in 0..rng.range(0, 3) {
+				l.push((*rng.pick(&["ct call", "ct subscribe", "ct batch 2", "ct ondisc"])).into());
+			}
+			if rng.chance(1, 2) {
+				l.push("ct advance 45".into());
+				l.push("ct pong".into());
+			}
+			l.push(format!("ct fault ping_err {}", rng.range(1, 9)));
+			l.push("ct advance 25".into());
 			l.push("ct call".into());
+			l.push("ct end".into());
+			l.push("ct call".into());
+			l.push("ct ondisc".into());
+		}
+		_ => {
+			// the application drops the client (and every future it awaited) with things pending
+			out.count("client_dropped_with_pending");
+			l.push(format!("case {caseno} ctasksx num 2"));
+			l.push("ct subscribe".into());
+			l.push(format!("ct deliver {}", hexs("{\"jsonrpc\":\"2.0\",\"id\":0,\"result\":\"S0\"}")));
+			l.push(format!("ct deliver {}", hexs("{\"jsonrpc\":\"2.0\",\"method\":\"sub\",\"params\":{\"subscription\":\"S0\",\"result\":1}}")));
+			if rng.chance(1, 2) {
+				l.push(format!("ct gate {} shut", *rng.pick(&["send", "close", "recv"])));
+			}
+			for _ in 0..rng.range(0, 4) {
+				l.push((*rng.pick(&["ct call", "ct notify", "ct batch 2", "ct subscribe", "ct regnotif 65", "ct ondisc"])).into());
+			}
+			l.push("ct dropclient".into());
+			l.push("ct end".into());
 		}
 	}
 	l
@@ -1320,7 +1671,20 @@ fn rt_scenario(name: &'static str, timeout_ms: u64) -> RtResult {
 	let mut worst = 0u128;
 	let ok = rt.block_on(async {
 		let fcap = if name == "front_channel_full" { 1 } else { 8 };
-		let mut s = FaultSession::new(false, 2, fcap, t);
+		let opts = FOpts {
+			request_timeout: match name {
+				"tiny_request_timeout" => Duration::from_millis(5),
+				"huge_request_timeout" => Duration::from_secs(1_000_000_000),
+				_ => t,
+			},
+			ping: match name {
+				// silent peer: no pong, no message at all
+				"ping_inactive" => Some((30, 60, 1)),
+				"ping_send_err" => Some((40, 100_000, 3)),
+				_ => None,
+			},
+		};
+		let mut s = FaultSession::with_opts(false, 2, fcap, opts);
 		// (what to expect, deadline) per ticket
 		let mut expect: Vec<(&str, Duration)> = vec![];
 		let start = Instant::now();
@@ -1377,6 +1741,48 @@ fn rt_scenario(name: &'static str, timeout_ms: u64) -> RtResult {
 				tokio::time::sleep(Duration::from_millis(20)).await;
 				s.exec_nobarrier("ct call");
 				expect = vec![("*", t + slack), ("E:restart(transport(mock:r1))", prompt)];
+			}
+			"ping_inactive" => {
+				// pings are on and the peer is silent: the read task gives up after the inactive limit
+				s.exec_nobarrier("ct call");
+				s.exec_nobarrier("ct subscribe");
+				s.exec_nobarrier("ct batch 2");
+				expect = vec![("E:restart(transport(WebSocket ping/pong inactive))", prompt); 3];
+			}
+			"ping_send_err" => {
+				// the write of the ping itself fails
+				s.exec_nobarrier("ct call");
+				tokio::time::sleep(Duration::from_millis(10)).await;
+				s.ctl.lock().unwrap().ping_fail = Some("p1".into());
+				tokio::time::sleep(Duration::from_millis(60)).await;
+				s.exec_nobarrier("ct call");
+				expect = vec![("E:restart(transport(mock:p1))", prompt); 2];
+			}
+			"tiny_request_timeout" => {
+				// 5 ms: everything times out at once; the late answer finds the abandoned entry (harmless), the
+				// next call times out as well, a receive error afterwards is reported as usual
+				s.exec_nobarrier("ct call");
+				s.exec_nobarrier("ct subscribe");
+				s.exec_nobarrier("ct batch 2");
+				tokio::time::sleep(Duration::from_millis(60)).await;
+				s.inject(Ok(ReceivedMessage::Text("{\"jsonrpc\":\"2.0\",\"id\":0,\"result\":1}".into())));
+				tokio::time::sleep(Duration::from_millis(30)).await;
+				s.exec_nobarrier("ct call");
+				tokio::time::sleep(Duration::from_millis(40)).await;
+				s.inject(Err(MockErr("r1".into())));
+				tokio::time::sleep(Duration::from_millis(30)).await;
+				s.exec_nobarrier("ct call");
+				expect = vec![("E:timeout", prompt), ("E:timeout", prompt), ("E:timeout", prompt), ("E:timeout", prompt), ("E:restart(transport(mock:r1))", prompt)];
+			}
+			"huge_request_timeout" => {
+				// 10^9 s: the timer must not overflow; answers and failures arrive as usual
+				s.exec_nobarrier("ct call");
+				s.exec_nobarrier("ct call");
+				tokio::time::sleep(Duration::from_millis(20)).await;
+				s.inject(Ok(ReceivedMessage::Text("{\"jsonrpc\":\"2.0\",\"id\":0,\"result\":7}".into())));
+				tokio::time::sleep(Duration::from_millis(20)).await;
+				s.inject(Err(MockErr("r1".into())));
+				expect = vec![("ok:37", prompt), ("E:restart(transport(mock:r1))", prompt)];
 			}
 			"subscribe_non_id_result" => {
 				// the connection stays healthy: the subscribe must fail at once, the call is answered later
@@ -1483,7 +1889,11 @@ fn rt_sweep(cases: &[Vec<String>], timeout_ms: u64) -> (usize, Result<(), String
 	(cases.len(), if p.is_empty() { res } else { Err(format!("a task panicked during the real-time sweep: {}", p.join(" ; "))) })
 }
 
-const RT_SCENARIOS: [&str; 9] = [
+const RT_SCENARIOS: [&str; 13] = [
+	"ping_inactive",
+	"ping_send_err",
+	"tiny_request_timeout",
+	"huge_request_timeout",
 	"subscribe_non_id_result",
 	"subscribe_refused_and_odd_notifications",
 	"silent_server",
@@ -1512,8 +1922,7 @@ fn main() {
 		let mut made = 0u64;
 		'outer: loop {
 			let base = gen_base(&mut rng);
-			let str_ids = rng.chance(1, 4);
-			let cap = rng.range(1, 3);
+			let (str_ids, cap, opts) = pick_config(&mut rng, &mut out);
 			for p in 0..=base.len() {
 				for fault in FAULTS {
 					for gate in GATES {
@@ -1524,7 +1933,7 @@ fn main() {
 							caseno += 1;
 							made += 1;
 							let script = systematic(&mut rng, &mut out, &base, p, fault, gate, place);
-							lines.extend(render(&mut rng, &mut out, caseno, str_ids, cap, &script));
+							lines.extend(render_with(&mut rng, &mut out, caseno, str_ids, cap, &opts, &script));
 						}
 					}
 				}
@@ -1534,38 +1943,51 @@ fn main() {
 			caseno += 1;
 			out.count("unsubscribe_write_fault");
 			out.count("fault.send_err");
-			let str_ids = rng.chance(1, 4);
-			let cap = rng.range(1, 3);
-			lines.extend(render(&mut rng, &mut out, caseno, str_ids, cap, &script));
+			let (str_ids, cap, opts) = pick_config(&mut rng, &mut out);
+			lines.extend(render_with(&mut rng, &mut out, caseno, str_ids, cap, &opts, &script));
 		}
 		for script in long_message_histories(thorough) {
 			caseno += 1;
 			out.count("long_message_history");
-			let str_ids = rng.chance(1, 4);
-			let cap = rng.range(1, 3);
-			lines.extend(render(&mut rng, &mut out, caseno, str_ids, cap, &script));
+			let (str_ids, cap, opts) = pick_config(&mut rng, &mut out);
+			lines.extend(render_with(&mut rng, &mut out, caseno, str_ids, cap, &opts, &script));
+		}
+		for script in queued_behind_blocked_send() {
+			caseno += 1;
+			out.count("queued_behind_blocked_send");
+			let (str_ids, cap, opts) = pick_config(&mut rng, &mut out);
+			lines.extend(render_with(&mut rng, &mut out, caseno, str_ids, cap, &opts, &script));
+		}
+		for script in axis_histories() {
+			caseno += 1;
+			out.count("axis_history");
+			let (str_ids, cap, opts) = pick_config(&mut rng, &mut out);
+			lines.extend(render_with(&mut rng, &mut out, caseno, str_ids, cap, &opts, &script));
+		}
+		for kind in 0..5u64 {
+			for _ in 0..(if thorough { 40 } else { 8 }) {
+				caseno += 1;
+				lines.extend(unmodelled_history(&mut rng, &mut out, caseno, Some(kind)));
+			}
 		}
 		for script in odd_reply_histories() {
 			caseno += 1;
 			out.count("odd_reply_history");
-			let str_ids = rng.chance(1, 4);
-			let cap = rng.range(1, 3);
-			lines.extend(render(&mut rng, &mut out, caseno, str_ids, cap, &script));
+			let (str_ids, cap, opts) = pick_config(&mut rng, &mut out);
+			lines.extend(render_with(&mut rng, &mut out, caseno, str_ids, cap, &opts, &script));
 		}
 		for i in 0..(n - systematic_budget) {
 			caseno += 1;
-			if i % 10 == 9 {
-				lines.extend(unmodelled_history(&mut rng, &mut out, caseno));
+			if i % 5 == 4 {
+				lines.extend(unmodelled_history(&mut rng, &mut out, caseno, None));
 			} else if i % 10 == 3 || i % 10 == 7 {
 				let script = simultaneous_history(&mut rng, &mut out);
-				let str_ids = rng.chance(1, 4);
-				let cap = rng.range(1, 3);
-				lines.extend(render(&mut rng, &mut out, caseno, str_ids, cap, &script));
+				let (str_ids, cap, opts) = pick_config(&mut rng, &mut out);
+				lines.extend(render_with(&mut rng, &mut out, caseno, str_ids, cap, &opts, &script));
 			} else {
 				let script = random_history(&mut rng, &mut out);
-				let str_ids = rng.chance(1, 4);
-				let cap = rng.range(1, 3);
-				lines.extend(render(&mut rng, &mut out, caseno, str_ids, cap, &script));
+				let (str_ids, cap, opts) = pick_config(&mut rng, &mut out);
+				lines.extend(render_with(&mut rng, &mut out, caseno, str_ids, cap, &opts, &script));
 			}
 		}
 	}
